@@ -1188,12 +1188,12 @@ class BaseScreen(metaclass=BaseMeta):
         # basic colors for 88-color mode if high colors are specified
         # in this way (also avoids crash when X > 87)
         def large_h(desc: str) -> bool:
-            if not desc.startswith("h"):
-                return False
-            if "," in desc:
-                desc = desc.split(",", 1)[0]
-            num = int(desc[1:], 10)
-            return num > 15
+            # the colour may come after other settings ('bold,h100')
+            for part in desc.split(","):
+                part = part.strip()  # noqa: PLW2901
+                if part.startswith("h") and part[1:].isdigit() and int(part[1:], 10) > 15:
+                    return True
+            return False
 
         if large_h(foreground_high) or large_h(background_high):
             high_88 = basic
